@@ -297,12 +297,12 @@ func runC14(c *mon.Ctx) {
 		if key == "" && wantDoc == "" {
 			// flows that build the document themselves: it must be the configured AuthnRequest
 			d := etree.NewDocument()
-			if err := d.ReadFromString(infl); err != nil {
+			if err := d.ReadFromString(sim.ConformingView(infl)); err != nil {
 				key, msg = "inflated-document-malformed", err.Error()
 			} else {
 				var got, wantS strings.Builder
 				shape(d.Root(), &got)
-				expectedOutbound(sp, "authn", OutArgs{}, now, sp.SignAuthnRequests).shape(&wantS, o.AttrCR)
+				expectedOutbound(sp, "authn", OutArgs{}, now, sp.SignAuthnRequests).shape(&wantS, false)
 				if got.String() != wantS.String() {
 					key, msg = "inflated-document-differs", fmt.Sprintf("want %s\n got %s", trunc(wantS.String(), 600), trunc(got.String(), 600))
 				}
